@@ -91,3 +91,36 @@ pub fn zip_all(parts: &[(String, Vec<u8>)], method: Method) -> Vec<u8> {
     }
     z.finish()
 }
+
+/// Read back an archive written by `ZipW` (central directory walk; stored / deflated members).
+pub fn unzip(bytes: &[u8]) -> Vec<(String, Vec<u8>, Method)> {
+    let mut out = vec![];
+    // EOCD at the very end (no comment)
+    let e = bytes.len() - 22;
+    let n = u16::from_le_bytes([bytes[e + 10], bytes[e + 11]]) as usize;
+    let mut p = u32::from_le_bytes(bytes[e + 16..e + 20].try_into().unwrap()) as usize;
+    for _ in 0..n {
+        let m = u16::from_le_bytes([bytes[p + 10], bytes[p + 11]]);
+        let csize = u32::from_le_bytes(bytes[p + 20..p + 24].try_into().unwrap()) as usize;
+        let nl = u16::from_le_bytes([bytes[p + 28], bytes[p + 29]]) as usize;
+        let xl = u16::from_le_bytes([bytes[p + 30], bytes[p + 31]]) as usize;
+        let cl = u16::from_le_bytes([bytes[p + 32], bytes[p + 33]]) as usize;
+        let off = u32::from_le_bytes(bytes[p + 42..p + 46].try_into().unwrap()) as usize;
+        let name = String::from_utf8_lossy(&bytes[p + 46..p + 46 + nl]).to_string();
+        let lnl = u16::from_le_bytes([bytes[off + 26], bytes[off + 27]]) as usize;
+        let lxl = u16::from_le_bytes([bytes[off + 28], bytes[off + 29]]) as usize;
+        let data = &bytes[off + 30 + lnl + lxl..off + 30 + lnl + lxl + csize];
+        let (d, method) = if m == 8 { (miniz_oxide::inflate::decompress_to_vec(data).expect("inflate"), Method::Deflated) } else { (data.to_vec(), Method::Stored) };
+        out.push((name, d, method));
+        p += 46 + nl + xl + cl;
+    }
+    out
+}
+
+pub fn rezip(parts: &[(String, Vec<u8>, Method)]) -> Vec<u8> {
+    let mut z = ZipW::new();
+    for (n, d, m) in parts {
+        z.add(n, d, *m);
+    }
+    z.finish()
+}
